@@ -60,8 +60,13 @@ def cases(tier, seed):
                 yield {"kind": "lik", "lik": lik, "pbatch": pb, "dbatch": db, "seed": rnd.randrange(10**6)}
             yield {"kind": "exact", "pbatch": pb, "dbatch": db, "seed": rnd.randrange(10**6)}
         for pb, db, zb in itertools.product([[], [2], [3, 2]], [[], [2], [3, 2]], ["none", "batch"]):
-            yield {"kind": "svgp", "pbatch": pb, "dbatch": db, "zbatch": zb, "strategy": rnd.choice(["VariationalStrategy", "UnwhitenedVariationalStrategy"]),
-                   "dist": rnd.choice(["CholeskyVariationalDistribution", "MeanFieldVariationalDistribution"]), "seed": rnd.randrange(10**6)}
+            for strat, dist in itertools.product(["VariationalStrategy", "UnwhitenedVariationalStrategy"], ["CholeskyVariationalDistribution", "MeanFieldVariationalDistribution"]):
+                if tier == "quick" and rnd.random() < 0.5 and not (pb and dist.startswith("MeanField")):
+                    continue
+                yield {"kind": "svgp", "pbatch": pb, "dbatch": db, "zbatch": zb, "strategy": strat, "dist": dist, "seed": rnd.randrange(10**6)}
+        # targets carrying batch dimensions the inputs and the model do not have (data broadcast against each other)
+        for pb, db, yb in (([], [], [2]), ([], [], [3, 2]), ([2], [], [3, 2]), ([], [2], [3, 2]), ([2], [2], [3, 2])):
+            yield {"kind": "exact", "pbatch": pb, "dbatch": db, "ybatch": yb, "seed": rnd.randrange(10**6)}
         for members in ([4, 4], [3, 7], [5, 2, 9]):
             yield {"kind": "modellist", "members": members, "seed": rnd.randrange(10**6)}
 
@@ -226,35 +231,43 @@ def _exact(case, ctx, g):
     from vf import util
 
     pb, db = case["pbatch"], case["dbatch"]
-    full = list(torch.broadcast_shapes(torch.Size(pb), torch.Size(db)))
+    yb = case.get("ybatch", db)
+    full = list(torch.broadcast_shapes(torch.Size(pb), torch.Size(db), torch.Size(yb)))
     n, ns = 6, 3
-    X, y, xs = util.randn(g, *db, n, D), util.randn(g, *db, n), util.randn(g, *db, ns, D)
+    X, y, xs = util.randn(g, *db, n, D), util.randn(g, *yb, n), util.randn(g, *db, ns, D)
     m = _mk_exact(pb, X, y)
     util.randomize(m, g, 0.5)
+    yonly = "ybatch" in case  # targets with batch dimensions of their own: the marginal likelihood broadcasts, prediction refuses (explicit error)
     try:
         with torch.no_grad():
-            m.eval()
-            out = m(xs)
-            mean, cov = out.mean, out.covariance_matrix
+            if not yonly:
+                m.eval()
+                out = m(xs)
+                mean, cov = out.mean, out.covariance_matrix
             m.train()
             v = gpytorch.mlls.ExactMarginalLogLikelihood(m.likelihood, m)(m(X), y)
     except Exception as e:
         ctx.fail("posterior_replica", f"batched exact GP raised {type(e).__name__}: {str(e)[:140]}", "raise", exc=type(e).__name__, prank=len(pb), drank=len(db), pbatch=pb, dbatch=db)
         ctx.cell(*_cell(case, full))
         return
-    ctx.expect("exact_batch_shape", list(mean.shape[:-1]) == full and list(v.shape) == full, f"posterior batch {list(mean.shape[:-1])} mll {list(v.shape)} expected {full}")
-    me, ce, ve = _ex(mean, full, ns), _ex(cov, full, ns, ns), _ex(v, full)
+    if yonly:
+        ctx.expect("exact_batch_shape", list(v.shape) == full, f"mll {list(v.shape)} expected {full}")
+        ve = _ex(v, full)
+    else:
+        ctx.expect("exact_batch_shape", list(mean.shape[:-1]) == full and list(v.shape) == full, f"posterior batch {list(mean.shape[:-1])} mll {list(v.shape)} expected {full}")
+        me, ce, ve = _ex(mean, full, ns), _ex(cov, full, ns, ns), _ex(v, full)
     for b in _elements(full):
-        Xb, yb, xsb = _sl(X, db, b, full), _sl(y, db, b, full), _sl(xs, db, b, full)
-        r = _mk_exact([], Xb, yb)
+        Xb, yb_, xsb = _sl(X, db, b, full), _sl(y, yb, b, full), _sl(xs, db, b, full)
+        r = _mk_exact([], Xb, yb_)
         _load_slice(m, r, b, full)
         with torch.no_grad():
             r.eval()
             ro = r(xsb)
             r.train()
-            rv = gpytorch.mlls.ExactMarginalLogLikelihood(r.likelihood, r)(r(Xb), yb)
-        ctx.close("posterior_replica", torch.cat([me[b], ce[b].reshape(-1)]), torch.cat([ro.mean, ro.covariance_matrix.reshape(-1)]), "direct", cls="exact:posterior", element=list(b))
-        ctx.close("mll_replica", ve[b], rv, "direct", cls="exact:mll", element=list(b))
+            rv = gpytorch.mlls.ExactMarginalLogLikelihood(r.likelihood, r)(r(Xb), yb_)
+        if not yonly:
+            ctx.close("posterior_replica", torch.cat([me[b], ce[b].reshape(-1)]), torch.cat([ro.mean, ro.covariance_matrix.reshape(-1)]), "direct", cls="exact:posterior", element=list(b))
+        ctx.close("mll_replica", ve[b], rv, "direct", cls="exact:mll" + (":ybatch" if yonly else ""), element=list(b))
     ctx.cell(*_cell(case, full))
 
 
